@@ -58,7 +58,7 @@ def oracle_c05(scn, run):
     bad = [l["id"] for l in d if not l["hash_ok"]]
     if bad:
         v.append(({"class": "hash-chain"}, "entries %s do not carry the digest of (previous hash, own content)" % bad))
-    v += oracle_stored(scn, run)
+    v += oracle_stored(scn, run, fields=False)   # C05: the stored chain verifies; which field of a row differs is C13's business
     tids = [int(l["tx"]["id"]) for l in tx_logs(d)]
     if tids != list(range(len(tids))):
         dry_ok = any(scn["requests"][r["req"]].get("dry") and r["ok"] for r in run["responses"])
@@ -66,14 +66,37 @@ def oracle_c05(scn, run):
     return v
 
 
-def oracle_stored(scn, run):
-    """the row the store writes for an entry (encoded when the entry reaches InsertLogs, as ledgerstore.Store does), read back through
-    Logs.ToCore, must carry the entry's id and re-hash to the stored hash over the previous row read back the same way"""
-    bad = [l["id"] for l in run["durable"] if l.get("stored_ok") is False]
-    if bad:
-        return [({"class": "stored-entry-does-not-verify"},
-                 "entries %s: the row written to the store does not read back to an entry whose recomputed hash is the stored one" % bad)]
-    return []
+def oracle_stored(scn, run, fields=True):
+    """every durable entry is written by the REAL ledgerstore.Store.InsertLogs (the call the batcher's worker makes, on a table that records
+    the COPY arguments); the row, read back as a SELECT hands it over (Logs.ToCore), must be the entry that was handed in — id, type, date,
+    idempotency key, payload, hash — and re-hash to the stored hash over the previous row read back the same way"""
+    v = []
+    for l in run["durable"]:
+        if l.get("stored_ok") is not False:
+            continue
+        sr = l.get("stored") or {}
+        if "error" in sr:
+            v.append(({"class": "store-insert-error"}, "entry %s: InsertLogs did not write it: %s" % (l["id"], sr["error"])))
+            continue
+        if "panic" in sr:
+            v.append(({"class": "store-decode-panic"}, "entry %s: Logs.ToCore panics on the stored row: %s" % (l["id"], sr["panic"])))
+            continue
+        if "written" in sr and fields:
+            for f in ("id", "type", "date", "ik", "data", "hash"):
+                a, b = sr["written"].get(f), sr["row"].get(f)
+                if canon(a) != canon(b):
+                    name = {"ik": "idempotency-key", "data": "payload"}.get(f, f)
+                    if f == "ik":
+                        what = "handed to InsertLogs with an idempotency key of %d characters, stored with one of %d characters" % (len(a or ""), len(b or ""))
+                    else:
+                        what = "%s handed to InsertLogs %s, stored %s" % (name, canon(a)[:120], canon(b)[:120])
+                    v.append(({"class": "stored-row-differs", "field": name},
+                              "entry %s (%s): the row written to the store, read back through Logs.ToCore, is not the entry that was written: %s" % (l["id"], l["type"], what)))
+        if "rehash" in sr or "written" not in sr:
+            v.append(({"class": "stored-entry-does-not-verify"},
+                      "entry %s (%s): the row written to the store does not read back to an entry whose recomputed hash (%s) is the stored one (%s)"
+                      % (l["id"], l["type"], sr.get("rehash"), sr.get("hash"))))
+    return v
 
 
 # ---------------------------------------------------------------- C06
